@@ -15,7 +15,7 @@ META = {
             'switched on, and a call after a random prefix of other library calls (including calls that advance the default identifier '
             'generators) must give the same canonical result; (3) the canonical result (identical value for enumerators / acceptance / '
             'checker verdicts / named automata, bounded language fingerprint for regexps) is compared across 2-8 fresh processes with '
-            'different PYTHONHASHSEED; non-trivial = argument with >=2 states / rules; distinct by (operation, arguments); also related-object-first history (same rules, other start), counter DFAs, near-isomorphic DFA pairs, machines built by parse_tm (defaultdict tables) with raw-table snapshots',
+            'different PYTHONHASHSEED; non-trivial = argument with >=2 states / rules; distinct by (operation, arguments); also related-object-first history (same rules, other start), counter DFAs, near-isomorphic DFA pairs, machines built by parse_tm (defaultdict tables) with raw-table snapshots; NFA operands with 11-12 numbered states; the default name generator before and after many earlier calls',
     'assumptions': ['heap-level immutability is observed through canonical content and str(); CPython object identity is not modelled '
                     'outside Gamba/Model/Heap.lean'],
     'trusted_base': ['Lean: order-independence theorems c19_* and the alias frame theorems of Gamba/Props/C19.lean'],
@@ -173,7 +173,7 @@ def make_args(rng, kinds):
         elif k == 'dfa2':
             spec[k] = gen.random_dfa(rng, 3, Sig, lambda i: 'p%d' % i)
         elif k == 'nfa':
-            spec[k] = gen.random_nfa(rng, 4, Sig)
+            spec[k] = gen.numbered_nfa(rng) if rng.random() < 0.12 else gen.random_nfa(rng, 4, Sig)
         elif k == 'nfa2':
             if rng.random() < 0.5:      # the SECOND operand carries generator-like names q0, q1, ...
                 spec['nfa'] = gen.random_nfa(rng, 4, Sig, spec['nfa']['eps'], lambda i: 's%d' % i, live=True)
@@ -329,7 +329,13 @@ def judge(ctx, c, answers):
         # after other library calls
         history(random.Random(c['seed']))
         r4 = call(f, *[BUILDERS[k](c['args'][k]) for k in kinds], limit=20)
-        for tag, r in (('repeat', r2), ('logging', r3), ('history', r4)):
+        tags = [('repeat', r2), ('logging', r3), ('history', r4)]
+        if c['op'] in ('nfa_union', 'nfa_repetition'):
+            # ... and from the state of the process-wide default generator after MANY earlier calls
+            NA.nfa_union.__defaults__[0].index = 50 + c['seed'] % 7
+            NA.nfa_repetition.__defaults__[0].index = 50 + c['seed'] % 7
+            tags.append(('generator-state', call(f, *[BUILDERS[k](c['args'][k]) for k in kinds], limit=20)))
+        for tag, r in tags:
             v = canon_result(r['ok']) if 'ok' in r else 'ERR'
             same = (v == v1) if named else (lang_fp(r.get('ok')) == lang_fp(r1['ok']))
             if not same:
